@@ -704,13 +704,13 @@ Section ExecProofs.
 
   (** no CALL frame hands back more gas than it was given — provided no Aspect, precompile or
       interpreter run reports more gas left than it received *)
-  Theorem call_gas_le fuel depth hint ps caller addr input gas value s r s' :
+  Lemma call_gas_le_fuel f depth hint ps caller addr input gas value s r s' :
     aspect_sane ->
     (forall a c i g, r_gas (precompile a c i g) <= g) ->
-    (forall f d h fc g st r0 st', RUNF f d h fc g st = Some (r0, st') -> r_gas r0 <= g) ->
-    CALL fuel depth hint ps caller addr input gas value s = Some (r, s') -> r_gas r <= gas.
+    (forall d h fc g st r0 st', RUNF f d h fc g st = Some (r0, st') -> r_gas r0 <= g) ->
+    CALL (S f) depth hint ps caller addr input gas value s = Some (r, s') -> r_gas r <= gas.
   Proof.
-    intros Hs Hp Hr. destruct fuel as [|f]; [discriminate|]. cbn [do_call]. cbv beta zeta.
+    intros Hs Hp Hr. cbn [do_call]. cbv beta zeta.
     set (s1 := SAVE s caller (Some addr) input value gas).
     destruct (Nat.ltb max_depth depth); [intros E; inversion E; subst; cbn; lia|].
     destruct (negb (value =? 0) && negb (can_transfer (xw s1) caller value)); [intros E; inversion E; subst; cbn; lia|].
@@ -742,6 +742,15 @@ Section ExecProofs.
     destruct (tail W (xw s1) rq s6) as [r' s''] eqn:T.
     intros E; inversion E; subst. cbn [fst]. rewrite (tail_gas _ _ _ _ _ T).
     destruct (r_err rq) as [e|]; [destruct (is_revert e)|]; lia.
+  Qed.
+
+  Theorem call_gas_le fuel depth hint ps caller addr input gas value s r s' :
+    aspect_sane ->
+    (forall a c i g, r_gas (precompile a c i g) <= g) ->
+    (forall f d h fc g st r0 st', RUNF f d h fc g st = Some (r0, st') -> r_gas r0 <= g) ->
+    CALL fuel depth hint ps caller addr input gas value s = Some (r, s') -> r_gas r <= gas.
+  Proof.
+    intros Hs Hp Hr. destruct fuel as [|f]; [discriminate|]. apply call_gas_le_fuel; [exact Hs|exact Hp|apply Hr].
   Qed.
 
   (** * C13 — the balance journal brackets the value transfer with the true balances *)
